@@ -60,6 +60,17 @@ impl CompileState<'_> {
             return Err(self.err(err));
         }
 
+        if let Some(missing) = struct_def
+            .iter()
+            .find(|d| !s.fields.iter().any(|(n, _)| n.inner == d.identifier.inner))
+        {
+            let note = format!(
+                "field `{}` missing in literal of `Struct {}`",
+                missing.identifier, s.identifier
+            );
+            return Err(self.err(NotDefined(note, s.identifier.span)));
+        }
+
         let mut fields = Vec::new();
         for (field_name, e) in &s.fields {
             let def_field = &struct_def
